@@ -74,8 +74,14 @@ def dyadic_dt(rng):
     return rng.choice([1.0, 0.5, 0.25, 0.125, 0.0625, 2.0])
 
 
+NEAR_RATE_DTS = [0.01000005, 1 / 49.9996, 0.0200001, 0.00999995, 1 / 100.0005, 0.005 * (1 + 2.0 ** -30), 1 / 199.9993]
+
+
 def any_dt(rng):
-    return rng.choice([0.01, 0.005, 0.02, 0.1, 0.001, 1.0, 0.05]) if rng.random() < 0.7 else 10 ** rng.uniform(-3, 0)
+    u = rng.random()
+    if u < 0.1:
+        return rng.choice(NEAR_RATE_DTS)        # 1/dt NEAR a whole number but not equal to it: nobody may 'snap' a time step
+    return rng.choice([0.01, 0.005, 0.02, 0.1, 0.001, 1.0, 0.05]) if u < 0.73 else 10 ** rng.uniform(-3, 0)
 
 
 def log_int(rng, lo, hi):
